@@ -28,6 +28,7 @@
 #include <xercesc/util/PlatformUtils.hpp>
 #include <xercesc/util/RuntimeException.hpp>
 #include <xercesc/util/TransService.hpp>
+#include <xercesc/util/TranscodingException.hpp>
 #include <xercesc/util/XMLEBCDICTranscoder.hpp>
 #include <xercesc/util/XMLString.hpp>
 #include <xercesc/util/Janitor.hpp>
@@ -1944,9 +1945,15 @@ XMLReader::xcodeMoreChars(          XMLCh* const            bufToFill
             // If there are no characters or if we need more but didn't get
             // any, return zero now.
             //
-            if (fRawBytesAvail == 0 ||
-                (needMode && (bytesLeft == fRawBytesAvail - fRawBufIndex)))
+            if (fRawBytesAvail == 0)
                 return 0;
+
+            // If we need more but didn't get any, the source ended in the
+            // middle of a multi-byte character: that is not a legal
+            // sequence in the encoding, not the end of the entity.
+            //
+            if (needMode && (bytesLeft == fRawBytesAvail - fRawBufIndex))
+                ThrowXMLwithMemMgr(TranscodingException, XMLExcepts::Trans_BadSrcSeq, fMemoryManager);
         }
 
         // Ask the transcoder to internalize another batch of chars. It is
